@@ -283,16 +283,21 @@ class Tab:
         if not self.with_parent:
             return z3.BoolVal(True)
         lv = self.plevel(n)
-        return z3.Implies(self.pknown(n), z3.And(self.pref(n) == ident(lv, n), lv >= 0, lv <= self.PL, self.plhas(self.pref(n)),
-                                                *str_int_spec(lv, self.L)))
+        return z3.Implies(self.pknown(n), z3.And(self.pref(n) == ident(lv, n), lv >= 0, lv <= self.PL, self.plhas(self.pref(n))))
 
     def assume_inv(self, st, *names):
-        st.assume(*str_int_spec(self.L))
-        st.assume(*name_spec(*names))
-        st.assume(*[z3.InRe(n, IDENT_RE) for n in names])  # template variable names are identifiers
+        """INV at the given names + instances of the lemma C03.symbols.no_alias (proved on the real _define_ref with the string
+        theory): the identifier is injective in (level, name).  The other Symbols contracts use the lemma, not the string facts."""
         st.assume(*typed_not_none())
         for n in names:
             st.assume(self.inv_at(n), self.anc_inv_at(n))
+        for a in names:
+            for b in names:
+                if a is not b:
+                    st.assume(z3.Implies(ident(self.L, a) == ident(self.L, b), a == b))
+                if self.with_parent:
+                    lv = self.plevel(b)
+                    st.assume(z3.Implies(z3.And(lv >= 0, ident(self.L, a) == ident(lv, b)), z3.And(self.L == lv, a == b)))
 
     # ---- reference semantics (chain lookup)
     def find_ref_known(self, n):
@@ -1155,7 +1160,7 @@ class NoAlias(VC):
     share a local (C03.symbols.no_alias.sibling_scopes, known finding)."""
     prop = "C03"
     target = "jinja2.idtracking:Symbols._define_ref"
-    timeout_quick = 30000
+    timeout_quick = 90000  # the string lemma goes to cvc5; generous budget for a loaded machine
 
     def __init__(self):
         super().__init__("C03", "C03.symbols.no_alias")
@@ -2698,7 +2703,10 @@ class SiblingScopes(VC):
     def setup(self, I, st):
         self.t1, self.t2 = Tab(st, False, "scope1"), Tab(st, False, "scope2")
         self.n = sym("name", "str")
-        st.assume(self.t1.L == self.t2.L, z3.InRe(self.n.t, IDENT_RE), *str_int_spec(self.t1.L), *name_spec(self.n.t))
+        # siblings: the same depth (the same level value)
+        st.get(self.t2.ref).fields["level"] = st.get(self.t1.ref).fields["level"]
+        self.t2.L = self.t1.L
+        st.assume(z3.InRe(self.n.t, IDENT_RE), *str_int_spec(self.t1.L), *name_spec(self.n.t))
         return [self.t2.ref, self.n, (ALIAS, "x")], {}
 
     def paths(self, I):
@@ -2718,6 +2726,8 @@ class SiblingScopes(VC):
     def p_distinct(self, pre, out):
         if out.raised or not isinstance(out.value, Sym):
             return False
+        if z3.simplify(out.id1.t).eq(z3.simplify(out.value.t)):
+            return False  # literally the same identifier term: refuted on this path if the path is feasible
         return out.id1.t != out.value.t
 
     posts = [("different_scopes_get_different_locals", p_distinct)]
